@@ -982,6 +982,11 @@ class Emitter:
             if ct0 and ct0.startswith("struct ") and not ct0.endswith("*") and not ct0.startswith("struct vf_"):
                 tag = ct0[len("struct "):]
                 self.structs.setdefault(tag, {})
+                if name == "operator=" and fnt:
+                    # copy or move assignment? (used when the class's operator= is compiler-generated, see cxx2c.translate)
+                    if not hasattr(self, "assign_kinds"):
+                        self.assign_kinds = {}
+                    self.assign_kinds.setdefault(tag, set()).add("move" if "&&)" in fnt else "copy")
                 return self.inferred_call(n, tag, name, self.addr_of(args[0]), args[1:])
         raise Unsupported("operator call %s on %s" % (name, qt(args[0]) if args else "?"))
 
@@ -2024,7 +2029,14 @@ class Emitter:
             return [ind + p for p in pre] + ["%sself->%s = %s;" % (ind, name, v)]
         if "baseInit" in ci:
             bt = ci["baseInit"].get("desugaredQualType") or ci["baseInit"]["qualType"]
-            btag = self.tm.class_tag_of(parse(bt))
+            pbt = parse(bt)
+            if pbt.kind == "named" and pbt.last == "iterator_facade" and "boost::" in (pbt.name or "") and \
+                    not [a for a in skip(inner[0]).get("inner", []) if a.get("kind") != "CXXDefaultArgExpr"]:
+                # boost::iterator_facade<Derived, ..>: stateless CRTP interface base (operator++ / * / == forward to the
+                # derived class's increment / dereference / equal); its default construction does nothing
+                self.dropped.append("boost::iterator_facade base construction")
+                return []
+            btag = self.tm.class_tag_of(pbt)
             self.add_base(self.unit.cls, btag)
             e = skip(inner[0])
             if e.get("kind") != "CXXConstructExpr":
